@@ -30,7 +30,8 @@ open Counters
 def gReach (d0 : Option Nat) (ops : List GOp) : GSys × GGhost :=
   (gRun (GSys.boot d0) ops, gGhostRun (GSys.boot d0) (GGhost.boot d0) ops)
 
-/-- Every history keeps the ghost invariant. -/
+/-- Every history keeps the ghost invariant — histories include FAILING stores (`storeFail`) and
+several `initiate_group` calls in progress at the same time (`held`). -/
 theorem group_invariant (d0 : Option Nat) (h : GStart d0) (ops : List GOp) :
     GInv (gReach d0 ops).1 (gReach d0 ops).2 :=
   ginv_run ops (ginv_boot d0 h)
@@ -41,55 +42,219 @@ theorem group_spent_le (d0 : Option Nat) (ops : List GOp) : (gReach d0 ops).2.sp
   have h0 : (GGhost.boot d0).spent = 0 := by cases d0 <;> rfl
   simp only [gReach]; omega
 
-/-- **Wire values are pairwise distinct** (also against the values still waiting in exchanges), for
-every history that consumes at most one cycle of the 28-bit range: `gCost ops ≤ mask`, i.e.
-`#reservations + 1000 · #power-losses ≤ 2^28 − 1`. -/
+/-- **Wire values are pairwise distinct** (also against the values still held by `initiate_group`
+calls in progress and those waiting in exchanges), for every history — with power losses and
+failing stores anywhere — that consumes at most one cycle of the 28-bit range: `gCost ops ≤ mask`,
+i.e. `#reservations + 1000 · #power-losses ≤ 2^28 − 1`. -/
 theorem group_wire_values_distinct (d0 : Option Nat) (h : GStart d0) (ops : List GOp)
     (hb : gCost ops ≤ mask) :
-    ((gReach d0 ops).1.ready ++ (gReach d0 ops).1.used).Nodup :=
+    ((gReach d0 ops).1.held ++ (gReach d0 ops).1.ready ++ (gReach d0 ops).1.used).Nodup :=
   ginv_values_nodup (group_invariant d0 h ops) (Nat.le_trans (group_spent_le d0 ops) hb)
 
 theorem group_used_values_distinct (d0 : Option Nat) (h : GStart d0) (ops : List GOp)
     (hb : gCost ops ≤ mask) : (gReach d0 ops).1.used.Nodup :=
   (List.nodup_append.mp (group_wire_values_distinct d0 h ops hb)).2.1
 
-/-- **A value is used only when a durable boundary covers it**: in every reachable state, every
-value that reached the wire and every value that can still reach it (stashed in an exchange) sits
-at a position strictly before the position of the boundary held in storage — and such a boundary
-exists. Unconditional (no cycle bound needed: it is a statement about positions). -/
+/-- **A value is used only when a durable boundary covers it** (ghost positions): in every
+reachable state, every value that reached the wire and every value that can still reach it (held
+by an `initiate_group` in progress, or stashed in an exchange) sits at a position strictly before
+the position of the boundary held in storage — and such a boundary exists. Unconditional (no cycle
+bound needed: it is a statement about positions); holds after failing stores too. The ghost-free
+reading is `group_used_covered`. -/
 theorem group_used_only_if_covered (d0 : Option Nat) (h : GStart d0) (ops : List GOp) :
     let s := (gReach d0 ops).1
     let g := (gReach d0 ops).2
-    s.ready = g.rpos.map gval ∧ s.used = g.upos.map gval ∧
-    ∀ p ∈ g.rpos ++ g.upos, ∃ d, s.durable = some d ∧ gnorm d = gval g.dpos ∧ p < g.dpos := by
+    s.held = g.hpos.map gval ∧ s.ready = g.rpos.map gval ∧ s.used = g.upos.map gval ∧
+    ∀ p ∈ g.hpos ++ g.rpos ++ g.upos, ∃ d, s.durable = some d ∧ gnorm d = gval g.dpos ∧ p < g.dpos := by
   intro s g
   have hi : GInv s g := group_invariant d0 h ops
-  refine ⟨hi.ready_eq, hi.used_eq, ?_⟩
+  refine ⟨hi.held_eq, hi.ready_eq, hi.used_eq, ?_⟩
   intro p hp
-  have hlt : p < g.dpos := by
+  have hp' : p ∈ g.hpos ∨ p ∈ g.rpos ∨ p ∈ g.upos := by
     rcases List.mem_append.mp hp with h1 | h1
+    · rcases List.mem_append.mp h1 with h2 | h2
+      · exact Or.inl h2
+      · exact Or.inr (Or.inl h2)
+    · exact Or.inr (Or.inr h1)
+  have hlt : p < g.dpos := by
+    rcases hp' with h1 | h1 | h1
+    · exact (hi.hrange p h1).2.2
     · exact (hi.rrange p h1).2.2
     · exact (hi.urange p h1).2.2
   cases hd : s.durable with
   | none =>
-    have := hi.nodur hd
-    rcases List.mem_append.mp hp with h1 | h1
-    · rw [this.1] at h1; exact absurd h1 (by simp)
-    · rw [this.2.1] at h1; exact absurd h1 (by simp)
+    obtain ⟨e1, e2, e3, _⟩ := hi.nodur hd
+    rcases hp' with h1 | h1 | h1
+    · rw [e1] at h1; exact absurd h1 (by simp)
+    · rw [e2] at h1; exact absurd h1 (by simp)
+    · rw [e3] at h1; exact absurd h1 (by simp)
   | some d => exact ⟨d, rfl, (hi.dur d hd).2.1, hlt⟩
 
-/-- the caller may stash (and later send) a reserved value only after the store, and at that moment
-the stored boundary is ahead of the value by at least one and at most one epoch of positions -/
-theorem group_stash_within_epoch (d0 : Option Nat) (h : GStart d0) (ops : List GOp) (v : Nat)
-    (hv : (gReach d0 ops).1.inflight = some (v, none)) :
+/-- forward distance of two values of the cycle whose positions are less than a cycle apart -/
+theorem fwd_gval {p q : Nat} (h1 : p ≤ q) (h2 : q < p + mask) :
+    fwd mask (gval p - 1) (gval q - 1) = q - p := by
+  simp only [fwd, gval, mask_eq] at *
+  omega
+
+theorem gnorm_eq_gResume (d : Nat) : gnorm d = gResume d := rfl
+
+/-- **A value is used only when a durable boundary covers it** — GHOST-FREE, in the cyclic order
+the driver's oracle uses (`Counters.gCovers`, written from the property text: the point a restart
+resumes from is strictly ahead of the value, forward distance between 1 and half the range): in
+every reachable state of a history that stays within HALF a cycle
+(`gCost ops + 1000 ≤ (2^28−1)/2`; serial-number order is only meaningful up to half the range),
+every value on the wire, waiting in an exchange, or held by an `initiate_group` in progress is
+covered by the boundary that IS in storage. Histories include failing stores. -/
+theorem group_used_covered (d0 : Option Nat) (h : GStart d0) (ops : List GOp)
+    (hb : gCost ops + gEpoch ≤ mask / 2) :
+    let s := (gReach d0 ops).1
+    ∀ v ∈ s.held ++ s.ready ++ s.used, ∃ d, s.durable = some d ∧ gCovers v d = true := by
+  intro s v hv
+  have hi : GInv s (gReach d0 ops).2 := group_invariant d0 h ops
+  have hsp := group_spent_le d0 ops
+  obtain ⟨e1, e2, e3, hcov⟩ := group_used_only_if_covered d0 h ops
+  have hv' : v ∈ ((gReach d0 ops).2.hpos ++ (gReach d0 ops).2.rpos ++ (gReach d0 ops).2.upos).map gval := by
+    rw [List.map_append, List.map_append, ← e1, ← e2, ← e3]; exact hv
+  obtain ⟨p, hp, hpv⟩ := List.mem_map.mp hv'
+  obtain ⟨d, hd, hdv, hlt⟩ := hcov p hp
+  refine ⟨d, hd, ?_⟩
+  have hbase : (gReach d0 ops).2.base ≤ p := by
+    rcases List.mem_append.mp hp with h1 | h1
+    · rcases List.mem_append.mp h1 with h2 | h2
+      · exact (hi.hrange p h2).1
+      · exact (hi.rrange p h2).1
+    · exact (hi.urange p h1).1
+  obtain ⟨hl, _, hdb, _, _⟩ := hi.dur d hd
+  obtain ⟨_, _, _, hbl⟩ := hi.vol hl
+  have hw := hi.window
+  have hM := mask_eq
+  have hE := gEpoch_eq
+  have hdist : (gReach d0 ops).2.dpos < p + mask := by omega
+  have hf := fwd_gval (Nat.le_of_lt hlt) hdist
+  have hvp := gval_pos p
+  unfold gCovers ahead
+  rw [← gnorm_eq_gResume, hdv, ← hpv, hf]
+  simp only [Bool.and_eq_true, decide_eq_true_eq]
+  refine ⟨hvp.1, by omega, by omega⟩
+
+/-- the live counter never passes the stored boundary (except by the one value reserved inside the
+critical section whose store is still open), and the stored boundary is never more than one epoch
+ahead of it -/
+theorem group_live_within_stored_boundary (d0 : Option Nat) (h : GStart d0) (ops : List GOp) (d : Nat)
+    (hd : (gReach d0 ops).1.durable = some d) :
+    let s := (gReach d0 ops).1
     let g := (gReach d0 ops).2
-    (gReach d0 ops).1.durable ≠ none ∧ v = gval (g.lpos - 1) ∧
-      g.lpos - 1 < g.dpos ∧ g.dpos ≤ g.lpos - 1 + gEpoch := by
-  intro g
-  have hi : GInv (gReach d0 ops).1 g := group_invariant d0 h ops
-  obtain ⟨_, h1, h2, _, h4⟩ := hi.infl v none hv
-  obtain ⟨h5, h6, h7⟩ := h4 rfl
-  exact ⟨h5, h2, by omega, by omega⟩
+    g.lpos ≤ g.dpos + infl1 s ∧ g.dpos ≤ g.lpos + gEpoch := by
+  intro s g
+  have hi : GInv s g := group_invariant d0 h ops
+  obtain ⟨hl, _, hdb, _, hdn⟩ := hi.dur d hd
+  obtain ⟨_, _, hlb, hbl⟩ := hi.vol hl
+  refine ⟨?_, by omega⟩
+  cases hin : s.inflight with
+  | none => have := hdn hin; omega
+  | some x =>
+    obtain ⟨v, b⟩ := x
+    have h7 := (hi.infl v b hin).2.2.2.2.2.2 (by rw [hd]; simp)
+    have h2 := (hi.infl v b hin).2.1
+    simp only [infl1, hin]; omega
+
+/-- **At the moment a reserved value leaves the critical section of `initiate_group`** (it becomes
+`held`: the store succeeded, or none was needed) **the boundary in storage is between 1 and 1000
+steps ahead of it in the cycle** — ghost-free, no cycle bound. Only from there can the value be
+stashed and sent. -/
+theorem group_release_within_epoch (d0 : Option Nat) (h : GStart d0) (ops : List GOp) (op : GOp) (v : Nat)
+    (hrel : (gStep (gReach d0 ops).1 op).held = v :: (gReach d0 ops).1.held) :
+    ∃ d, (gStep (gReach d0 ops).1 op).durable = some d ∧
+      1 ≤ fwd mask (v - 1) (gResume d - 1) ∧ fwd mask (v - 1) (gResume d - 1) ≤ gEpoch := by
+  have hi : GInv (gReach d0 ops).1 (gReach d0 ops).2 := group_invariant d0 h ops
+  have hi' := ginv_step hi op
+  generalize (gReach d0 ops).1 = s at *
+  generalize (gReach d0 ops).2 = g at *
+  have hM := mask_eq
+  have hE := gEpoch_eq
+  -- the released value sits at the head of the new ghost list
+  have hhe' := hi'.held_eq
+  rw [hrel] at hhe'
+  cases hh : (gGhostStep s g op).hpos with
+  | nil => rw [hh] at hhe'; simp at hhe'
+  | cons p ps =>
+    rw [hh, List.map_cons] at hhe'
+    have hvp : v = gval p := (List.cons.inj hhe').1
+    have hmem : p ∈ (gGhostStep s g op).hpos := by rw [hh]; exact List.mem_cons_self ..
+    have hr := hi'.hrange p hmem
+    cases hd : (gStep s op).durable with
+    | none => have := (hi'.nodur hd).1; rw [this] at hmem; exact absurd hmem (by simp)
+    | some d =>
+      obtain ⟨hl, hdv, hdb, _, hdn⟩ := hi'.dur d hd
+      obtain ⟨_, _, hlb, hbl⟩ := hi'.vol hl
+      refine ⟨d, rfl, ?_⟩
+      -- which step released it: only `reserve` (no store needed) and `store` grow `held`
+      have hkey : (gGhostStep s g op).dpos ≤ p + gEpoch := by
+        cases op with
+        | reserve r =>
+          cases hin : s.inflight with
+          | some x => simp only [gStep, hin] at hrel; exact absurd hrel (by simp)
+          | none =>
+            simp only [gGhostStep, hin] at hh hdb hbl hlb ⊢
+            by_cases h0 : s.vol.live = 0
+            · simp only [if_pos h0] at hh
+              have := (hi.nodur (hi.uninit h0).2.1).1
+              rw [this] at hh; exact absurd hh (by simp)
+            · simp only [if_neg h0] at hh hdb hbl hlb ⊢
+              by_cases h1 : s.vol.live = s.vol.boundary
+              · simp only [if_pos h1] at hh
+                -- `held` did not grow in this branch
+                have hS : (gStep s (.reserve r)).held = s.held := by
+                  have hgo : s.vol.getOrInit r = s.vol := by simp [GVol.getOrInit, h0]
+                  simp only [gStep, hin, GVol.reserve, hgo, if_pos h1]
+                rw [hS] at hrel
+                exact absurd hrel (by simp)
+              · simp only [if_neg h1] at hh hdb hbl hlb ⊢
+                have hp : p = g.lpos := (List.cons.inj hh).1.symm
+                obtain ⟨_, _, hlb0, hbl0⟩ := hi.vol h0
+                have : (gStep s (.reserve r)).durable = s.durable := by
+                  have hgo : s.vol.getOrInit r = s.vol := by simp [GVol.getOrInit, h0]
+                  simp only [gStep, hin, GVol.reserve, hgo, if_neg h1]
+                rw [this] at hd
+                have := (hi.dur d hd).2.2.1
+                omega
+        | store =>
+          cases hin : s.inflight with
+          | none => simp only [gStep, hin] at hrel; exact absurd hrel (by simp)
+          | some x =>
+            obtain ⟨v', b'⟩ := x
+            obtain ⟨_, _, _, _, h5, h6, _⟩ := hi.infl v' b' hin
+            simp only [gGhostStep, hin] at hh ⊢
+            have hp : p = g.lpos - 1 := (List.cons.inj hh).1.symm
+            omega
+        | storeFail =>
+          exfalso
+          cases hin : s.inflight with
+          | none => simp only [gStep, hin] at hrel; exact absurd hrel (by simp)
+          | some x => simp only [gStep, hin] at hrel; exact absurd hrel (by simp)
+        | stash i =>
+          exfalso
+          simp only [gStep] at hrel
+          split at hrel
+          · have := congrArg List.length hrel
+            simp only [List.length_cons, List.length_eraseIdx] at this
+            split at this <;> omega
+          · exact absurd hrel (by simp)
+        | use i =>
+          exfalso
+          simp only [gStep] at hrel
+          split at hrel <;> exact absurd hrel (by simp)
+        | abandon i =>
+          exfalso
+          simp only [gStep] at hrel
+          have := congrArg List.length hrel
+          simp only [List.length_cons, List.length_eraseIdx] at this
+          split at this <;> omega
+        | peek r => exfalso; simp only [gStep] at hrel; exact absurd hrel (by simp)
+        | crash => exfalso; simp only [gStep] at hrel; exact absurd hrel (by simp)
+      have hf := fwd_gval (Nat.le_of_lt hr.2.2) (by omega)
+      rw [← gnorm_eq_gResume, hdv, hvp, hf]
+      omega
 
 /-- **A restart resumes strictly past every used value**: after a power loss in any reachable
 state with a stored boundary, the live counter sits at the position of that boundary, which is
@@ -110,7 +275,8 @@ theorem gCost_append_crash : ∀ (ops : List GOp), gCost (ops ++ [.crash]) = gCo
   | o :: os => by
     rw [List.cons_append, gCost_cons, gCost_cons o os, gCost_append_crash os]; omega
 
-/-- … and, within one cycle, the value the restarted node hands out first was never on the wire. -/
+/-- … and, within one cycle, the value the restarted node hands out first was never on the wire
+(ghost-free). -/
 theorem group_restart_value_fresh (d0 : Option Nat) (h : GStart d0) (ops : List GOp)
     (hb : gCost ops + gEpoch < mask) :
     let s' := (gReach d0 (ops ++ [.crash])).1
@@ -123,7 +289,7 @@ theorem group_restart_value_fresh (d0 : Option Nat) (h : GStart d0) (ops : List 
   intro hm
   by_cases hl : s'.vol.live = 0
   · -- an uninitialised counter has no storage, hence nothing was ever used
-    have := (hi.nodur (hi.uninit hl).2.1).2.1
+    have := (hi.nodur (hi.uninit hl).2.1).2.2.1
     rw [hi.used_eq, this] at hm; exact absurd hm (by simp)
   · have hv := (hi.vol hl).1
     rw [hi.used_eq] at hm
@@ -133,6 +299,36 @@ theorem group_restart_value_fresh (d0 : Option Nat) (h : GStart d0) (ops : List 
     have : p = (gReach d0 (ops ++ [.crash])).2.lpos :=
       gval_inj (by omega) (by rw [hc] at hsp; omega) (by rw [hpv, ← hv])
     omega
+
+theorem failed_store_aux {s : GSys} {g : GGhost} (hi : GInv s g) (v b rand : Nat)
+    (hv : s.inflight = some (v, b)) :
+    (gStep s .storeFail).held = s.held ∧ (gStep s .storeFail).durable = s.durable ∧
+    (gStep s .storeFail).inflight = none ∧
+    ∃ b', (gStep (gStep s .storeFail) (.reserve rand)).inflight = some (v, b') ∧
+      (gStep (gStep s .storeFail) (.reserve rand)).held = s.held := by
+  obtain ⟨_, _, hvv, _⟩ := hi.infl v b hv
+  have hvp := gval_pos (g.lpos - 1)
+  have hv0 : v ≠ 0 := by omega
+  have hS : gStep s .storeFail = { s with vol := { live := v, boundary := v }, inflight := none } := by
+    simp only [gStep, hv, GVol.unreserve, GVol.set]
+  rw [hS]
+  refine ⟨rfl, rfl, rfl, gAdvance v gEpoch, ?_, ?_⟩ <;>
+    simp [gStep, GVol.reserve, GVol.getOrInit, hv0]
+
+/-- **A failed store leaves nothing uncovered**: when `kv.store` fails inside `initiate_group`
+(`storeFail` in any reachable state where a store is open), the reservation is undone — the very
+next reservation hands out the same value again and demands the store again (it returns a boundary),
+and until a store succeeds nothing new becomes `held`. This is the repaired behaviour
+(finding C12-store-failure-group); before the repair the in-memory boundary stayed an epoch ahead
+and up to 999 values went on the wire with nothing in storage covering them. -/
+theorem group_failed_store_demands_store_again (d0 : Option Nat) (h : GStart d0) (ops : List GOp)
+    (v b rand : Nat) (hv : (gReach d0 ops).1.inflight = some (v, b)) :
+    (gStep (gReach d0 ops).1 .storeFail).held = (gReach d0 ops).1.held ∧
+    (gStep (gReach d0 ops).1 .storeFail).durable = (gReach d0 ops).1.durable ∧
+    (gStep (gReach d0 ops).1 .storeFail).inflight = none ∧
+    ∃ b', (gStep (gStep (gReach d0 ops).1 .storeFail) (.reserve rand)).inflight = some (v, b') ∧
+      (gStep (gStep (gReach d0 ops).1 .storeFail) (.reserve rand)).held = (gReach d0 ops).1.held :=
+  failed_store_aux (group_invariant d0 h ops) v b rand hv
 
 /-- **The `live == boundary` test cannot be stepped over**: the live position never passes the
 boundary position, stays within one epoch of it, and the equality of the cyclic values holds
@@ -182,34 +378,56 @@ theorem group_boundary_visited_exactly (v j : Nat) (h1 : 1 ≤ v) (h2 : v ≤ ma
 
 /-- every boundary the code hands to the store is a value of the range (never the 0 marker) -/
 theorem group_stored_boundary_in_range (d0 : Option Nat) (h : GStart d0) (ops : List GOp) (v b : Nat)
-    (hv : (gReach d0 ops).1.inflight = some (v, some b)) : 1 ≤ b ∧ b ≤ mask := by
-  obtain ⟨_, _, _, h3, _⟩ := (group_invariant d0 h ops).infl v (some b) hv
-  rw [(h3 b rfl).1]; exact gval_pos _
+    (hv : (gReach d0 ops).1.inflight = some (v, b)) : 1 ≤ b ∧ b ≤ mask := by
+  obtain ⟨_, _, _, h3, _⟩ := (group_invariant d0 h ops).infl v b hv
+  rw [h3]; exact gval_pos _
 
 /-! ### non-vacuity of the hypotheses and a few concrete runs (tests, not theorems) -/
 
 example : GStart none := fun _ hd => absurd hd (by simp)
 example : GStart (some 268435000) := fun d hd => by
   simp only [Option.some.injEq] at hd; subst hd; decide
-example : gCost [.reserve 0, .store, .stash, .use 0, .crash, .reserve 0] ≤ mask := by decide
+example : gCost [.reserve 0, .store, .stash 0, .use 0, .crash, .reserve 0] ≤ mask := by decide
+example : gCost [.reserve 0, .storeFail, .reserve 0, .store, .stash 0, .use 0, .crash] + gEpoch ≤ mask / 2 := by
+  decide
 /-- across the wrap: start 3 below the top, send, lose power, send again -/
 example : (gRun (GSys.boot (some 268435453))
-    [.reserve 0, .store, .stash, .use 0, .reserve 0, .store, .stash, .use 0, .crash,
-     .reserve 0, .store, .stash, .use 0]).used = [997, 268435454, 268435453] := by decide
+    [.reserve 0, .store, .stash 0, .use 0, .reserve 0, .store, .stash 0, .use 0, .crash,
+     .reserve 0, .store, .stash 0, .use 0]).used = [997, 268435454, 268435453] := by decide
 /-- a power loss between `reserve` and the store loses the reservation, not the invariant -/
-example : (gRun (GSys.boot (some 268435455)) [.reserve 0, .crash, .reserve 0, .store, .stash, .use 0]).used
+example : (gRun (GSys.boot (some 268435455)) [.reserve 0, .crash, .reserve 0, .store, .stash 0, .use 0]).used
     = [268435455] := by decide
 example : gSpan 268435455 = 999 ∧ gSpan 268434456 = 1000 ∧ gSpan 268434457 = 999 := by decide
+/-- the hypothesis of `group_failed_store_demands_store_again` / `group_stored_boundary_in_range` is
+reachable -/
+example : (gRun (GSys.boot (some 5000)) [.reserve 0]).inflight = some (5000, 6000) := by decide
 
-/-- Observation outside C12's quantifier (it needs a *failing* store): `reserve` moves the in-memory
-boundary before the caller's store can fail; if the store fails, `initiate_group` returns the error
-and drops the reservation, and the next reservation demands no store although nothing covers it.
-Modelled here by dropping the in-flight reservation by hand. -/
+/-- REGRESSION for finding C12-store-failure-group (`corpus/C12/failed-store.txt` is the same history
+on the real code): the store fails, the reservation is undone; the next `initiate_group` gets the
+same value and stores the boundary before it is used; a power loss resumes past everything sent. -/
 example :
-    let s1 := gStep (GSys.boot (some 5000)) (.reserve 0)            -- (5000, Some 6000)
-    let s2 := { s1 with inflight := none }                           -- the store failed: error path
-    let s3 := gRun s2 [.reserve 0, .store, .stash, .use 0]           -- (5001, None): no store demanded
+    let s := gRun (GSys.boot (some 5000))
+      [.reserve 0, .storeFail, .reserve 0, .store, .stash 0, .use 0, .reserve 0, .stash 0, .use 0, .crash]
+    s.used = [5001, 5000] ∧ s.durable = some 6000 ∧ s.vol.live = 6000 := by decide
+/-- What the code did BEFORE the repair (the failing store dropped the reservation but kept the moved
+in-memory boundary; written out by hand, it is no longer a step of the model): the next reservation
+demanded no store, 5001 went out with storage still holding 5000. -/
+example :
+    let s1 := gStep (GSys.boot (some 5000)) (.reserve 0)             -- (5000, Some 6000)
+    let s2 := { s1 with inflight := none }                            -- the unrepaired error path
+    let s3 := gRun s2 [.reserve 0, .stash 0, .use 0]                  -- (5001, None): no store demanded
     s3.used = [5001] ∧ s3.durable = some 5000 := by decide
+/-- Why the store must happen inside the critical section of the reservation (finding
+C12-concurrent-reservation, `sync-mutex` builds): a second reservation that sees the moved boundary
+before it is stored gets a value and no demand to store anything. -/
+example :
+    let a := GVol.reserve { live := 5000, boundary := 5000 } 0
+    let b := GVol.reserve a.1 0
+    a.2 = (5000, some 6000) ∧ b.2 = (5001, none) := by decide
+/-- several `initiate_group` calls in progress (the model's `held` list): values released in any order -/
+example : (gRun (GSys.boot (some 5000))
+    [.reserve 0, .store, .reserve 0, .reserve 0, .stash 0, .stash 1, .use 0, .abandon 0, .use 0]).used
+    = [5002, 5000] := by decide
 
 /-! ## 2. Event numbers -/
 
@@ -273,6 +491,10 @@ example : (ESys.boot (some 30000)).vol.next + eCost [.push, .crash, .push, .push
 /-- first boot: the epoch is stored with the very first number -/
 example : (eRun (ESys.boot none) [.push, .push, .crash, .push]).used = [10000, 2, 1] ∧
     (eRun (ESys.boot none) [.push, .push, .crash, .push]).durable = some 20000 := by decide
+
+/-- a failing store inside `push` hands out no number and changes nothing; the next push stores first -/
+example : (eRun (ESys.boot (some 10000)) [.pushFail, .pushFail, .push, .crash, .push]).used = [20000, 10000] ∧
+    (eRun (ESys.boot (some 10000)) [.pushFail]) = ESys.boot (some 10000) := by decide
 
 /-! ## 3. Check-In counter (under the application protocol the interface prescribes) -/
 
@@ -388,6 +610,152 @@ theorem checkin_boundary_reached (d0 : Option Nat) (init epoch : Nat) (h : CStar
     · rw [if_pos hc]; simp [hc]
     · rw [if_neg hc]; simp; omega
 
+theorem cCost_append_boot (epoch i : Nat) : ∀ (ops : List COp),
+    cCost epoch (ops ++ [.boot i]) = cCost epoch ops + epoch
+  | [] => by simp [cCost, cCost1]
+  | o :: os => by
+    simp only [List.cons_append, cCost]; rw [cCost_append_boot epoch i os]; omega
+
+/-- forward distance of two u32 values whose positions are less than a cycle apart -/
+theorem fwd_cval {p q : Nat} (h1 : p ≤ q) (h2 : q < p + U32) : fwd U32 (cval p) (cval q) = q - p := by
+  simp only [fwd, cval, U32_eq] at *
+  omega
+
+/-- **A value is used only when a stored boundary covers it** — GHOST-FREE, in the cyclic order the
+driver's oracle uses (`Counters.cCovers`: forward distance value → stored boundary at most half the
+u32 range; a restart resumes with boundary + 1): for an obedient application and a history within
+half a cycle (`cCost epoch ops + epoch ≤ 2^31`), every value that reached the wire is covered by
+the boundary that is in storage. Histories include failing stores (`advanceStoreFail`,
+`persistFail`). -/
+theorem checkin_used_covered (d0 : Option Nat) (init epoch : Nat) (h : CStart d0 init epoch)
+    (ops : List COp) (hok : ∀ op ∈ ops, COpOk op) (hw : WellBehaved d0 init epoch ops)
+    (hb : cCost epoch ops + epoch ≤ U32 / 2) :
+    let s := (cReach d0 init epoch ops).1
+    ∀ v ∈ s.used, ∃ d, s.durable = some d ∧ cCovers v d = true := by
+  intro s v hv
+  have hinv : CInv s (cReach d0 init epoch ops).2 := checkin_invariant d0 init epoch h ops hok
+  have hsp := checkin_spent_le d0 init epoch ops
+  obtain ⟨e1, hcov⟩ := checkin_used_only_if_covered d0 init epoch h ops hok hw
+  rw [e1] at hv
+  obtain ⟨p, hp, hpv⟩ := List.mem_map.mp hv
+  obtain ⟨d, hd, hdv, hle⟩ := hcov p hp
+  have hbase := ((hinv.wl hw).1 p hp).1
+  obtain ⟨_, hdn, _⟩ := hinv.dur d hd
+  obtain ⟨_, _, _, hnv⟩ := hinv.val
+  have hwin := hinv.window
+  have hep : s.ctr.epoch = epoch := by
+    have : ∀ (ops : List COp) (s0 : CSys), (cRun s0 ops).ctr.epoch = s0.ctr.epoch := by
+      intro ops
+      induction ops with
+      | nil => intro s0; rfl
+      | cons a as ih => intro s0; simp only [cRun]; rw [ih, cstep_epoch]
+    exact this ops _
+  have hU := U32_eq
+  refine ⟨d, hd, ?_⟩
+  unfold cCovers
+  rw [hdv, ← hpv, fwd_cval hle (by omega)]
+  simp only [decide_eq_true_eq]; omega
+
+/-- … and, within one cycle, the first value the restarted node uses was never on the wire
+(ghost-free). -/
+theorem checkin_restart_value_fresh (d0 : Option Nat) (init epoch : Nat)
+    (h : CStart d0 init epoch) (ops : List COp) (hok : ∀ op ∈ ops, COpOk op) (i : Nat) (hi : i < U32)
+    (hw : WellBehaved d0 init epoch ops) (hb : cCost epoch ops + epoch < U32) :
+    let s' := (cReach d0 init epoch (ops ++ [.boot i])).1
+    s'.ctr.next ∉ s'.used := by
+  intro s' hm
+  obtain ⟨hn, hu, hlt⟩ := checkin_restart_resumes_past_used d0 init epoch h ops hok i hi hw
+  have hok' : ∀ op ∈ ops ++ [COp.boot i], COpOk op := by
+    intro op hop
+    rcases List.mem_append.mp hop with h1 | h1
+    · exact hok op h1
+    · simp only [List.mem_singleton] at h1; subst h1; exact hi
+  have hinv := checkin_invariant d0 init epoch h (ops ++ [.boot i]) hok'
+  have hsp := checkin_spent_le d0 init epoch (ops ++ [.boot i])
+  rw [cCost_append_boot] at hsp
+  have hrun : ∀ (ops : List COp) (s : CSys) (o : COp), cRun s (ops ++ [o]) = cStep (cRun s ops) o := by
+    intro ops
+    induction ops with
+    | nil => intro s o; rfl
+    | cons a as ih => intro s o; simp only [List.cons_append, cRun]; exact ih _ _
+  have hwell : s'.well = true := by
+    show (cRun (CSys.boot d0 init epoch) (ops ++ [.boot i])).well = true
+    rw [hrun]; exact hw
+  rw [hn, hu] at hm
+  obtain ⟨p, hp, hpv⟩ := List.mem_map.mp hm
+  have hb1 := ((hinv.wl hwell).1 p hp).1
+  have hwin := hinv.window
+  have := hlt p hp
+  have : p = (cReach d0 init epoch (ops ++ [.boot i])).2.vpos + 1 :=
+    cval_inj (by omega) (by omega) hpv
+  omega
+
+/-! ### the crate's own sender: `Icd::send_check_in` obeys the interface, failing stores included -/
+
+/-- One call of (the repaired) `Icd::send_check_in`, as operations of the model: a boundary whose
+store failed earlier (`due`) is stored first — if that store fails too (`okRetry = false`) the error
+is returned and NOTHING is sent —, then `next()` → send → `advance_counter` (whose store may fail:
+`okAdv = false`, which marks the boundary as due). -/
+def sendOps (due okRetry okAdv : Bool) : List COp :=
+  let adv := if okAdv then COp.advanceStore else COp.advanceStoreFail
+  if due then (if okRetry then [.persist, .use, adv] else [.persistFail]) else [.use, adv]
+
+/-- a device that only ever calls `send_check_in`, with arbitrary outcomes of every store -/
+def sendRun (s : CSys) : List (Bool × Bool) → CSys
+  | [] => s
+  | (a, b) :: r => sendRun (cRun s (sendOps s.due a b)) r
+
+/-- the history of operations `sendRun` performs -/
+def sendHistory (s : CSys) : List (Bool × Bool) → List COp
+  | [] => []
+  | (a, b) :: r => sendOps s.due a b ++ sendHistory (cRun s (sendOps s.due a b)) r
+
+theorem cRun_append (s : CSys) (a b : List COp) : cRun s (a ++ b) = cRun (cRun s a) b := by
+  induction a generalizing s with
+  | nil => rfl
+  | cons o os ih => simp only [List.cons_append, cRun]; exact ih _
+
+theorem sendRun_eq (outs : List (Bool × Bool)) : ∀ s, sendRun s outs = cRun s (sendHistory s outs) := by
+  induction outs with
+  | nil => intro s; rfl
+  | cons o os ih =>
+    intro s; obtain ⟨a, b⟩ := o
+    simp only [sendRun, sendHistory, cRun_append]; exact ih _
+
+/-- what `send_check_in` needs and keeps: the application has obeyed so far, no batch is open, and
+every boundary that is not in storage is one the `Icd` knows about -/
+def SendOk (s : CSys) : Prop := s.well = true ∧ s.peeked = false ∧ (s.pending = true → s.due = true)
+
+theorem sendOps_keeps (s : CSys) (hs : SendOk s) (a b : Bool) : SendOk (cRun s (sendOps s.due a b)) := by
+  obtain ⟨h1, h2, h3⟩ := hs
+  have hadv : s.ctr.advance.2.isSome = true ∨ s.ctr.advance.2.isSome = false := by
+    cases s.ctr.advance.2.isSome <;> simp
+  cases hd : s.due <;> cases hp : s.pending <;> cases a <;> cases b <;>
+    simp only [sendOps, cRun, cStep, SendOk, hd, hp, h1, h2, if_true, if_false, Bool.false_eq_true] <;>
+    (try (rw [hp, hd] at h3; simp at h3)) <;>
+    (try (split <;> simp_all)) <;> simp_all
+
+/-- **`Icd::send_check_in` never sends an uncovered value, whatever its stores do**: from any state
+where the application has stored what it was told to (e.g. right after `boot` + a successful
+`persist`), a device that only calls `send_check_in` — with EVERY store free to fail, in any
+pattern — stays `WellBehaved`; so `checkin_values_distinct`, `checkin_used_covered`,
+`checkin_restart_value_fresh` apply to it unconditionally. This is the repaired behaviour (finding
+C12-store-failure-checkin); before the repair the batch after a failed store of `advance_counter`
+went out with a counter (= AEAD nonce) that no stored boundary covered. -/
+theorem send_check_in_obedient (outs : List (Bool × Bool)) : ∀ (s : CSys), SendOk s →
+    SendOk (cRun s (sendHistory s outs)) := by
+  induction outs with
+  | nil => intro s hs; exact hs
+  | cons o os ih =>
+    intro s hs; obtain ⟨a, b⟩ := o
+    simp only [sendHistory, cRun_append]
+    exact ih _ (sendOps_keeps s hs a b)
+
+/-- `SendOk` holds after a restart followed by a successful `persist` -/
+theorem sendOk_after_boot_persist (s : CSys) (i : Nat) (hw : s.well = true) :
+    SendOk (cRun s [.boot i, .persist]) := by
+  simp [SendOk, cRun, cStep, hw]
+
 example : CStart (some 4294967290) 7 10 := ⟨fun d hd => by
   simp only [Option.some.injEq] at hd; subst hd; decide, by decide, by decide, by decide⟩
 /-- an obedient history across the wrap of the u32: restart, store, send, advance … -/
@@ -396,6 +764,30 @@ example : WellBehaved (some 4294967290) 0 4
 example : (cReach (some 4294967290) 0 4
     [.persist, .use, .advanceStore, .use, .advanceStore, .boot 0, .persist, .use, .advance]).1.used
     = [4294967295, 4294967292, 4294967291] := by decide
+/-- REGRESSION for finding C12-store-failure-checkin (`corpus/C12/failed-store.txt`, case C, is the
+same history on the real code): the store of `advance_counter` fails at the boundary 103; the next
+`send_check_in` stores the due boundary 106 before it sends 104; a power loss resumes at 107. -/
+example :
+    let s := sendRun (cRun (CSys.boot (some 100) 0 3) [.persist]) [(true, true), (true, true), (true, false),
+      (true, true), (true, true)]
+    s.used = [105, 104, 103, 102, 101] ∧ s.durable = some 106 ∧ s.well = true ∧
+    (cStep s (.boot 0)).ctr.next = 107 := by decide
+/-- … and while the store keeps failing nothing is sent at all -/
+example :
+    let s := sendRun (cRun (CSys.boot (some 100) 0 3) [.persist]) [(true, true), (true, true), (true, false),
+      (false, true), (false, false)]
+    s.used = [103, 102, 101] ∧ s.durable = some 103 ∧ s.due = true := by decide
+/-- What the code did BEFORE the repair, as a history of the model: after the failed store the next
+batch is sent without storing first — the application protocol is broken (`well = false`), 104 is
+on the wire with 103 in storage, and a restart sends 104 again. -/
+example : (cRun (CSys.boot (some 100) 0 3)
+      [.persist, .use, .advanceStore, .use, .advanceStore, .use, .advanceStoreFail, .use, .advanceStore,
+       .boot 0, .persist, .use]).used = [104, 104, 103, 102, 101] ∧
+    ¬ WellBehaved (some 100) 0 3
+      [.persist, .use, .advanceStore, .use, .advanceStore, .use, .advanceStoreFail, .use] := by decide
+example : SendOk (cRun (CSys.boot (some 100) 0 3) [.persist]) := by unfold SendOk; decide
+example : cCost 4 [.persist, .use, .advanceStore, .use, .advanceStoreFail, .persist, .boot 0] + 4 ≤ U32 / 2 := by
+  decide
 /-- the hypothesis is needed: sending before storing after a restart repeats a value -/
 example : (cRun (CSys.boot (some 100) 0 10) [.use, .boot 0, .use]).used = [101, 101] ∧
     ¬ WellBehaved (some 100) 0 10 [.use, .boot 0, .use] := by decide
